@@ -244,6 +244,9 @@ func (c *Ctx) Inconclusive(reason string) {
 // Violation records a refutation; cs is the JSON-serialisable case that replays it.
 func (c *Ctx) Violation(cs interface{}, format string, args ...interface{}) {
 	msg := fmt.Sprintf(format, args...)
+	if len(msg) > 3000 {
+		msg = msg[:3000] + fmt.Sprintf("... (%d bytes; the full case is in the replay file)", len(msg))
+	}
 	b, err := json.Marshal(cs)
 	if err != nil {
 		b, _ = json.Marshal(fmt.Sprintf("%+v", cs))
